@@ -4,6 +4,8 @@ package main
 
 import (
 	"fmt"
+	"go/ast"
+	"os"
 	"go/constant"
 	"go/types"
 	"math"
@@ -758,16 +760,41 @@ func (fr *frame) lookupLocal(name string, ev *Env) (T, bool) {
 			case *ssa.DebugRef:
 				if x.Object() != nil && x.Object().Name() == name && !x.IsAddr {
 					x := x
+					if os.Getenv("GOVC_DEBUG_IDENT") == name {
+						fmt.Fprintf(os.Stderr, "DEBUG cand %s block=%v idx=%d %v expr=%T\n", name, b, i, x, x.Expr)
+					}
 					// at the header block itself only instructions before the terminator count,
 					// and a loop-header DebugRef is evaluated after the phis: skip when at == b
 					if at != nil && b == at && !ev.atBlockEnd {
 						continue
 					}
+					b, i := b, i
 					c := &cand{b, i, func() (T, bool) {
-						if v, ok := fr.vals[x.X]; ok {
-							return v, true
+						if _, isConst := x.X.(*ssa.Const); !isConst {
+							if v, ok := fr.vals[x.X]; ok {
+								return v, true
+							}
 						}
 						if cst, ok := x.X.(*ssa.Const); ok {
+							// x/tools v0.29 quirk: for `v := map[K]V{...}` the defining debug reference of v names the nil
+							// constant, and the value is named by the debug reference of the composite literal that follows it in the same block.
+							if cst.Value == nil {
+								for k := i + 1; k < len(b.Instrs) && (at == nil || at != b); k++ {
+									d, isDbg := b.Instrs[k].(*ssa.DebugRef)
+									if !isDbg {
+										continue
+									}
+									if id, isID := d.Expr.(*ast.Ident); isID && id.Name == name {
+										break // a later definition of the same variable
+									}
+									if _, isLit := d.Expr.(*ast.CompositeLit); isLit && types.Identical(d.X.Type(), cst.Type()) {
+										if v, ok := fr.vals[d.X]; ok {
+											return v, true
+										}
+										break
+									}
+								}
+							}
 							return fr.val(cst), true
 						}
 						return T{}, false
@@ -780,6 +807,18 @@ func (fr *frame) lookupLocal(name string, ev *Env) (T, bool) {
 		}
 	}
 	if best != nil {
+		if os.Getenv("GOVC_DEBUG_IDENT") == name {
+			v, ok := best.get()
+			for k := best.idx - 6; k <= best.idx && k >= 0; k++ {
+				in := best.block.Instrs[k]
+				ex := ""
+				if d, ok := in.(*ssa.DebugRef); ok {
+					ex = fmt.Sprintf("%T %v", d.Expr, d.X.Type())
+				}
+				fmt.Fprintf(os.Stderr, "DEBUG   [%d] %T %v %s\n", k, in, in, ex)
+			}
+			fmt.Fprintf(os.Stderr, "DEBUG ident %s at=%v best.block=%v idx=%d instr=%v -> %v %v\n", name, at, best.block, best.idx, best.block.Instrs[best.idx], v, ok)
+		}
 		return best.get()
 	}
 	return T{}, false
